@@ -769,6 +769,81 @@ def run(ctx):
            "the literal key 'C4' exists in VanDerWaalsVolume", prog.mod('parameters'),
            prog.mod('parameters').cls('Parameters'))
 
+    # messages: an 's' format specification applied to an object that is not a
+    # string raises TypeError (object.__format__ accepts the empty specification
+    # only) - also on warning paths that only incomplete structures reach
+    import string as _string2
+    n_fields, bad_fields = 0, []
+    for fid in sorted(reach):
+        fn = cg.funcs[fid]
+        mod = cg.mod_of[fid]
+        params_ = {a.arg: a for a in fn.args.args + fn.args.kwonlyargs}
+        # names that are used as objects with attributes of their own
+        obj_names = set()
+        for n in walk_no_nested(fn):
+            if isinstance(n, ast.Attribute) and isinstance(n.value, ast.Name) \
+                    and not hasattr(str, n.attr) and not n.attr.startswith('__'):
+                obj_names.add(n.value.id)
+        for pn, a in params_.items():
+            ann = norm(a.annotation) if a.annotation is not None else ''
+            if any(t in ann for t in ('Group', 'Atom', 'Container', 'Parameters', 'Version')) \
+                    and 'str' not in ann:
+                obj_names.add(pn)
+
+        def is_object(e, depth=0):
+            if isinstance(e, ast.Name):
+                if e.id in obj_names:
+                    return True
+                if depth < 3:
+                    defs = [st.value for st in walk_no_nested(fn) if isinstance(st, ast.Assign)
+                            and len(st.targets) == 1 and isinstance(st.targets[0], ast.Name)
+                            and st.targets[0].id == e.id]
+                    return bool(defs) and all(is_object(d, depth + 1) for d in defs)
+                return False
+            if isinstance(e, ast.IfExp):
+                return is_object(e.body, depth) and is_object(e.orelse, depth)
+            return False
+        for node in walk_no_nested(fn):
+            fields = []
+            if isinstance(node, ast.Call) and isinstance(node.func, ast.Attribute) and node.func.attr == 'format' \
+                    and isinstance(node.func.value, ast.Constant) and isinstance(node.func.value.value, str):
+                auto = 0
+                try:
+                    parsed = list(_string2.Formatter().parse(node.func.value.value))
+                except ValueError:
+                    parsed = []
+                for _lit, field, spec, conv in parsed:
+                    if field is None:
+                        continue
+                    head = field.split('.')[0].split('[')[0]
+                    idx = auto if head == '' else (int(head) if head.isdigit() else None)
+                    auto += 1 if head == '' else 0
+                    arg = node.args[idx] if idx is not None and idx < len(node.args) else next(
+                        (k.value for k in node.keywords if k.arg == head), None)
+                    if head != field:
+                        continue            # an attribute or item of the argument is formatted
+                    fields.append((spec or '', conv, arg))
+            elif isinstance(node, ast.JoinedStr):
+                for v in node.values:
+                    if isinstance(v, ast.FormattedValue):
+                        spec = ''.join(x.value for x in v.format_spec.values
+                                       if isinstance(x, ast.Constant)) if v.format_spec is not None else ''
+                        fields.append((spec, None if v.conversion == -1 else 'c', v.value))
+            for spec, conv, arg in fields:
+                if not spec.endswith('s') or conv or arg is None:
+                    continue
+                n_fields += 1
+                if is_object(arg):
+                    bad_fields.append((mod, fid, node, norm(arg)))
+    for mod, fid, node, txt in bad_fields:
+        ctx.ob('C12.R2', 'message:s-spec-on-object:%s.%s:%s' % (fid[0], fid[1], txt), False,
+               'an "s" format specification is applied to %s, which this function uses as an object '
+               '(TypeError: unsupported format string passed to ...__format__); on a warning path '
+               'that only an incomplete structure reaches this turns a skipped pair into an abort'
+               % txt, mod, node)
+    ctx.ob('C12.R2', 'message:s-spec-fields-are-not-objects', not bad_fields and n_fields >= 40,
+           '%d "s"-formatted fields in reachable code, none applied to a name the function uses as '
+           'an object' % n_fields, gmod, gmod.tree)
     # ------------------------------------------------------------------ R4
     imod = prog.mod('input')
     rmf = imod.func('read_molecule_file')
